@@ -131,9 +131,10 @@ def install_linear_solver_stubs(ws_module, linalg_module, log=None):
             self.M = A.copy()
             log.append(("direct", "setup"))
 
-        def solve(self, b, **k):
+        def solve(self, b, trans="N", **k):
             log.append(("direct", "solve"))
-            return S.solve_contract(self.M, b, "lu")
+            # SuperLU.solve(rhs, trans): 'N' solves A x = b, 'T' / 'H' the (conjugate) transposed system
+            return S.solve_contract(self.M if trans == "N" else self.M.T, b, "lu")
 
     ENGINE.splu_hook = LU
 
